@@ -449,7 +449,7 @@ func (w *lcWorld) warmUp(n *node, e *engine, mon *lcMon) func() {
 			if drain(e.wp.recoverReady) {
 				busy = true
 				if req, ok := n.ss.getRecoverReq(); ok {
-					if err := (&ssWorker{}).handle(job{task: req, node: n, instanceID: n.instanceID, shardID: lcShard}); err != nil {
+					if err := (&ssWorker{}).handle(job{task: req, node: n, shardID: lcShard}); err != nil {
 						panic(err)
 					}
 				}
@@ -457,7 +457,7 @@ func (w *lcWorld) warmUp(n *node, e *engine, mon *lcMon) func() {
 			if drain(e.wp.saveReady) {
 				busy = true
 				if req, ok := n.ss.getSaveReq(); ok {
-					if err := (&ssWorker{}).handle(job{task: req, node: n, instanceID: n.instanceID, shardID: lcShard}); err != nil {
+					if err := (&ssWorker{}).handle(job{task: req, node: n, shardID: lcShard}); err != nil {
 						panic(err)
 					}
 				}
